@@ -3,6 +3,9 @@
 proof side : lean/Heph/Props/C12.lean — for the MODELLED languages (registry harness/trans_models.py; the
              translator models are those of C11) theorems for all programs: `doc_tags`, `doc_inventory`,
              `doc_pieces_partial` (+ counterexample), `annot_iff_*`, `literals_ops_present`, `balanced_partial`.
+             Groovy (lean/Heph/Props/C12Groovy.lean, imported by C12.lean; text model of C11, no tagged document):
+             `Groovy.var_annot_local/global`, `Groovy.ret_annot_method/closure`, `Groovy.call_targs_never_printed`,
+             `Groovy.new_targs_iff`, counterexamples `Groovy.var_annot_iff_counterexample`, `Groovy.ret_annot_iff_…`.
 tie to code: real pipeline runs (stages gen, erase, overwrite), every program translated by the REAL translators
              of all four languages (fresh translator, package "src.pkg").  Per (program, stage):
                specification side, from the export of the IR alone (harness/c12_scan.py, Python):
@@ -14,7 +17,12 @@ tie to code: real pipeline runs (stages gen, erase, overwrite), every program tr
                     "annotation printed iff the program carries it"; Java/Groovy classes and fields only)
                (S2) the string and char literals of the real text are exactly those of LIT (Kotlin/Scala: in order)
                (S3) () [] {} are balanced in the real text outside string / char literals
-               and for every language with a Lean model (correspondence):
+               Groovy only (harness/c12_groovy.py): (G1) the names printed as `def NAME = ` are exactly the local
+                    variables without a declared type plus the closure-functions without a non-void return type;
+                    (G2) top-level unannotated variables printed with a type, (G3) explicit call type arguments not
+                    printed: known findings, re-observed
+               and for every language with a Lean model (correspondence; a model without a tagged document, i.e.
+               without `doc_op` in the registry — Groovy — has leg K1 only: model text == real text):
                (K1) flatten(model doc) == real text                      [`trans.kotlin.doc`]
                (K2) Lean `inventory p` == INV (tags and names)           [`trans.kotlin.inventory`]
                (K3) declaration tags of the model doc == INV             [theorem doc_inventory, observed]
@@ -32,6 +40,7 @@ import time
 import common
 import pipeline
 import trans_models
+import c12_groovy
 import c12_scan as cs
 from trans_models import LANGS, MODELS
 from check_C11 import stream_results
@@ -278,6 +287,8 @@ def run_stream(run, specs, found, label, budget_s=10 ** 6):
                     continue
                 run.tally("texts", L)
                 if judge_text(run, spec, stage, L, text, inv, lit, lit_nodef, found):
+                    direct_bad.append((spec, stage, L))
+                if L == "groovy" and c12_groovy.annotation_legs(run, spec, stage, text, e, inv, found, replay_of):
                     direct_bad.append((spec, stage, L))
                 if L in MODELS:
                     rq = model_requests(L, e)
